@@ -10272,7 +10272,7 @@ class Parser:
             if isinstance(element, exp.Ordered):
                 this = element.this
                 if isinstance(this, exp.Alias):
-                    element.set("this", this.args["alias"])
+                    element.set("this", this.args["alias"].copy())
                 orders.append(element)
             else:
                 this = element
@@ -10282,7 +10282,11 @@ class Parser:
             query.select(
                 *aggregates_or_groups, *query.expressions, append=False, copy=False
             ).group_by(
-                *[projection.args.get("alias", projection) for projection in aggregates_or_groups],
+                # Copies: the projections themselves are already stored in the SELECT list
+                *[
+                    projection.args.get("alias", projection).copy()
+                    for projection in aggregates_or_groups
+                ],
                 copy=False,
             )
         else:
